@@ -245,6 +245,9 @@ class OutputAsync(addons.AddonAsync, block.SBlock):
 
     async def _output_coro_wrapper(self, data: Mapping) -> None:
         """Count the active tasks."""
+        if self.output is block.UNDEF:
+            # stop_data is being processed in a circuit stopped before its initialization
+            self.set_output(0)
         self.set_output(self.output + 1)
         try:
             await self._output_coro(data)
